@@ -88,6 +88,9 @@ deriving Repr, Inhabited
 def MadvrScene.length (s : MadvrScene) : Nat := s.endRaw - 1 - s.start + 1
 
 structure MadvrSource where
+  /-- the header's `flags` word. Precondition of the whole structure: `flags ≠ 0` — the reader rejects a file with
+  `flags = 0` ("incomplete measurement file") before any scene arithmetic, so such a source never reaches this model
+  (`vlib/madvrgen.py` decides that case at the byte level) -/
   flags : Nat
   maxcll : Nat
   maxfall : Nat
